@@ -109,6 +109,11 @@ def run_check(ctx, mod, ev_path):
             if rc != 0:
                 ctx.broke("audit", "leanchecker", (out + err)[-400:])
 
+    # line / branch coverage of the implementation while the tie and the oracle drive it: which anchored source lines this run
+    # never executed (a measure of the sampled half of the check, reported in the evidence; never a verdict)
+    srccov = vlib.SourceCoverage(pid)
+    srccov.start()
+
     # 3: correspondence ---------------------------------------------------------------------------
     if model_ok and hasattr(mod, "correspondence"):
         try:
@@ -143,6 +148,9 @@ def run_check(ctx, mod, ev_path):
             raise
         except Exception as e:  # noqa
             ctx.broke("oracle", "harness could not drive the implementation (widened search)", vlib.short_tb(e))
+
+    srccov.stop()
+    ctx.cov["source_coverage"] = srccov.report()
 
     known = vlib.load_known()
     listed, unlisted = [], []
